@@ -5,6 +5,7 @@ package main
 // locking).  Each use is logged in the evidence under "stubs".
 
 import (
+	"net"
 	"fmt"
 	"go/token"
 	"go/types"
@@ -537,5 +538,129 @@ func init() {
 	intrinsics["github.com/enfein/mieru/v3/pkg/rng.FixedIntVH"] = fixed("fixedintvh")
 	intrinsics["os.Hostname"] = func(e *Engine, fr *frame, fn *ssa.Function, args []Value, g *Term, pos token.Pos) Value {
 		return &StructV{F: []Value{e.opaqueString("hostname"), &IfaceV{}}}
+	}
+}
+
+// ---- internal/bytealg (assembly in the real build) ----
+func (e *Engine) indexByteArr(data *Term, off *Term, n *Term, max int, c *Term) *Term {
+	res := Const(64, ^uint64(0))
+	for i := max - 1; i >= 0; i-- {
+		ii := c64(int64(i))
+		hit := And(Ult(ii, n), Eq(Select(data, Add(off, ii)), c))
+		res = Ite(hit, ii, res)
+	}
+	return res
+}
+
+func init() {
+	intrinsics["internal/bytealg.IndexByteString"] = func(e *Engine, fr *frame, fn *ssa.Function, args []Value, g *Term, pos token.Pos) Value {
+		s := args[0].(*StrV)
+		if s.Max > 512 {
+			panic(unsupported("IndexByteString on long symbolic string"))
+		}
+		return e.indexByteArr(s.Data, c64(0), s.Len, s.Max, args[1].(*Term))
+	}
+	intrinsics["internal/bytealg.IndexByte"] = func(e *Engine, fr *frame, fn *ssa.Function, args []Value, g *Term, pos token.Pos) Value {
+		s := args[0].(*SliceV)
+		if len(s.Arr.T) == 0 {
+			return Const(64, ^uint64(0))
+		}
+		mx := umax(s.Len)
+		if mx > 512 {
+			panic(unsupported("IndexByte on long symbolic slice"))
+		}
+		return e.indexByteArr(e.sliceArr(s).T, s.Off, s.Len, int(mx), args[1].(*Term))
+	}
+	intrinsics["internal/bytealg.Equal"] = func(e *Engine, fr *frame, fn *ssa.Function, args []Value, g *Term, pos token.Pos) Value {
+		a, b := args[0].(*SliceV), args[1].(*SliceV)
+		if len(a.Arr.T) == 0 || len(b.Arr.T) == 0 {
+			return Eq(a.Len, b.Len)
+		}
+		mx := umax(a.Len)
+		if m2 := umax(b.Len); m2 < mx {
+			mx = m2
+		}
+		if mx > 1024 {
+			panic(unsupported("bytealg.Equal on long symbolic slices"))
+		}
+		aa, ba := e.sliceArr(a).T, e.sliceArr(b).T
+		cs := []*Term{Eq(a.Len, b.Len)}
+		for i := 0; i < int(mx); i++ {
+			ii := c64(int64(i))
+			cs = append(cs, Or(Uge(ii, a.Len), Eq(Select(aa, Add(a.Off, ii)), Select(ba, Add(b.Off, ii)))))
+		}
+		return And(cs...)
+	}
+	// pure parsers on constant arguments are evaluated natively
+	intrinsics["net.ParseIP"] = func(e *Engine, fr *frame, fn *ssa.Function, args []Value, g *Term, pos token.Pos) Value {
+		s, ok := args[0].(*StrV).concrete()
+		if !ok {
+			panic(unsupported("net.ParseIP on a symbolic string"))
+		}
+		ip := net.ParseIP(s)
+		if ip == nil {
+			return zeroValue(fn.Signature.Results().At(0).Type())
+		}
+		return e.constBytes([]byte(ip))
+	}
+}
+
+func (e *Engine) constBytes(b []byte) *SliceV {
+	t := ConstArr(64, 8, Const(8, 0))
+	for i, c := range b {
+		t = Store(t, c64(int64(i)), Const(8, uint64(c)))
+	}
+	n := c64(int64(len(b)))
+	o := newObject("constbytes", types.NewArray(types.Typ[types.Uint8], int64(len(b))), &ArrV{T: t, N: n, EW: 8})
+	return &SliceV{Arr: ptrTo(o), Off: c64(0), Len: n, Cap: n}
+}
+
+func init() {
+	foreignGlobals["net.IPv6loopback"] = func(e *Engine, t types.Type) Value {
+		return e.constBytes([]byte(net.IPv6loopback))
+	}
+	foreignGlobals["net.IPv6unspecified"] = func(e *Engine, t types.Type) Value {
+		return e.constBytes([]byte(net.IPv6unspecified))
+	}
+	foreignGlobals["net.IPv4zero"] = func(e *Engine, t types.Type) Value { return e.constBytes([]byte(net.IPv4zero)) }
+	foreignGlobals["net.v4InV6Prefix"] = func(e *Engine, t types.Type) Value {
+		return e.constBytes([]byte{0, 0, 0, 0, 0, 0, 0, 0, 0, 0, 0xff, 0xff})
+	}
+}
+
+// ---- strings: ASCII models (non-ASCII bytes pass through unchanged; the
+// real functions map Unicode letters too - outside every claim) ----
+func mapStr(s *StrV, f func(c *Term) *Term) *StrV {
+	if s.IsLit {
+		b := []byte(s.Lit)
+		for i := range b {
+			c := f(Const(8, uint64(b[i])))
+			b[i] = byte(c.val)
+		}
+		return strConst(string(b))
+	}
+	if s.Max > 512 {
+		panic(unsupported("string mapping on long symbolic string"))
+	}
+	d := s.Data
+	for i := 0; i < s.Max; i++ {
+		ii := c64(int64(i))
+		d = Store(d, ii, f(Select(s.Data, ii)))
+	}
+	return &StrV{Len: s.Len, Data: d, Max: s.Max}
+}
+
+func init() {
+	intrinsics["strings.ToLower"] = func(e *Engine, fr *frame, fn *ssa.Function, args []Value, g *Term, pos token.Pos) Value {
+		e.note("strings.ToLower modelled for ASCII (Unicode case mapping outside the claim)")
+		return mapStr(args[0].(*StrV), func(c *Term) *Term {
+			return Ite(And(Uge(c, Const(8, 'A')), Ule(c, Const(8, 'Z'))), Add(c, Const(8, 32)), c)
+		})
+	}
+	intrinsics["strings.ToUpper"] = func(e *Engine, fr *frame, fn *ssa.Function, args []Value, g *Term, pos token.Pos) Value {
+		e.note("strings.ToUpper modelled for ASCII (Unicode case mapping outside the claim)")
+		return mapStr(args[0].(*StrV), func(c *Term) *Term {
+			return Ite(And(Uge(c, Const(8, 'a')), Ule(c, Const(8, 'z'))), Sub(c, Const(8, 32)), c)
+		})
 	}
 }
